@@ -115,6 +115,9 @@ impl TableM {
             },
         })
     }
+    pub fn matches_pub(&self, p: &Option<Pred>, vals: &[Val]) -> bool {
+        self.matches(p, vals).unwrap_or(false)
+    }
     fn matches(&self, p: &Option<Pred>, vals: &[Val]) -> Result<bool, ()> {
         match p {
             None => Ok(true),
